@@ -217,7 +217,7 @@ theorem spec_messageGetFd {cs : List Bytes} {p0 n0 : Bytes} {fid0 : Nat} (env : 
         have := hg2.step (.close fd) r2 trivial trivial
         exact ⟨this, this⟩
 
-theorem harmless_execP (fdin : Option Handle) : Calls Harmless (execP fdin) := by
+theorem harmless_execP (argv : List Bytes) (fdin : Option Handle) : Calls Harmless (execP argv fdin) := by
   unfold execP
   simp only [bind_eq, pure_eq, call_bind]
   repeat' harmless_step
@@ -304,7 +304,7 @@ theorem spec_execOne {cs : List Bytes} (env : PEnv) (mh : Match) (st : ExecSt) {
       | none => exact ⟨hg1, rfl⟩
       | some fd =>
         dsimp only
-        refine wp_bind_mono (wp_harmless (harmless_execP fd) hg1) ?_
+        refine wp_bind_mono (wp_harmless (harmless_execP _ fd) hg1) ?_
         intro rc w2 hg2
         cases fd with
         | none => exact ⟨hg2, rfl⟩
